@@ -1,6 +1,6 @@
 SPECIFICATION MSpec
 CONSTANTS
-  MIds = {1,2,3,4,5,6,7,8}
+  MIds = {1,2,3,4,5,6,7,8,9,10,11,12,13,14,15,16}
 CONSTRAINT MMark
 POSTCONDITION MAccepted
 CHECK_DEADLOCK FALSE
